@@ -161,6 +161,9 @@ def regress_scenarios(full):
     add([T(0), T(1, "t.y"), D("c7", 0, "c_cat"), D("c7", 1, "c_cat"), CL("c7", 1), CL("c7", 0), D("c8", 1, "c_cat"), CL("c8", 1),
          T(1), CL("c8", 1), RS("kill"), CL("c7", 1), CL("c7", 0)])
     add([T(0), T(1, "t.y"), R("h1", 0, "h_cat"), R("h1", 1, "h_cat"), T(1), T(0), R("h2", 1, "h_cat"), T(1, "t.y"), RS("kill"), T(1), T(0)])
+    # C19 / C15: definitions that bring their own nu module; restart restores them with it
+    add([D("c1", 0, "c_mod"), CL("c1", 0), D("c1", 1, "c_mod"), CL("c1", 1), R("h1", 0, "h_mod"), T(0), RS("kill"), CL("c1", 0), T(0)],
+        extra_kinds={"c_mod": cat.command_module(), "h_mod": cat.handler_module()})
     # C19: overlapping calls of a command whose output stream appends while it is drained
     add([D("c1", 0, "c_lazy"), CL("c1", 0), BURST([CL("c1", 0), CL("c1", 0), CL("c1", 0)]), D("c2", 1, "c_lazy"),
          BURST([CL("c2", 1), CL("c1", 0), CL("c2", 1)])])
